@@ -141,6 +141,9 @@ def gen_package(rng, jid):
                 comp.setdefault("workflowAttributes", {})["replicate"] = "%(n)s"
                 rep = True
                 replicated_stage0 = True
+            if s == 0 and not rep and "n" in gvars and rng.random() < 0.35:
+                # a sibling that sets, for itself only, the variable another component of the stage replicates by
+                comp.setdefault("variables", {})["n"] = str(rng.randint(4, 6))
             comps.append(comp)
             known.append((s, name, rep))
     if replicated_stage0:
@@ -182,6 +185,154 @@ def gen_package(rng, jid):
             order.insert(rng.randrange(len(order) + 1), rng.choice(order))
     return {"id": jid, "kind": "flowir", "doc": doc, "files": files, "variable_files": vfiles,
             "variable_order": order, "platform": platform, "nstages": nstages}
+
+
+SHADOW_VARS = ["N", "n", "numberPoints", "K"]
+
+
+def gen_shadow_package(rng, jid):
+    """Replica counts / aggregate flags given through a variable that the replicating component inherits from the
+    global or the stage scope, next to SIBLINGS of the same stage that define the same variable privately with
+    another value.  The loader hands the components to the replication pass in the iteration order of a set of
+    (stage, name) tuples, i.e. in an order that changes with PYTHONHASHSEED: whatever is carried over from one
+    component to the next shows as a difference between processes."""
+    var = rng.choice(SHADOW_VARS)
+    flag = rng.choice(["doAggregate", "collect"])
+    n = rng.randint(1, 3)
+    nstages = rng.choice([1, 2, 2])
+    gvars = {var: rng.choice([n, str(n)]), flag: rng.choice(["no", "false", False]), "tag": "t"}
+    variables = {"default": {"global": gvars}}
+    if rng.random() < 0.4:
+        # the stage gives the count, the global value is a decoy
+        gvars[var] = n + 3
+        variables["default"]["stages"] = {"#0": {var: rng.choice([n, str(n)])}}
+    names = rng.sample(COMP_NAMES + ["sweep", "scan", "tune", "trim", "aa", "b"], rng.randint(4, 8))
+    comps, replicators = [], []
+    for i, name in enumerate(names):
+        comp = {"name": name, "stage": 0,
+                "command": {"executable": "echo", "arguments": "%s %%(%s)s %%(tag)s" % (name, var)}}
+        role = "replicator" if i < 2 else rng.choice(["replicator", "overrider", "overrider", "plain", "flag-overrider"])
+        if i == 2:
+            role = "overrider"
+        if role == "replicator":
+            comp["workflowAttributes"] = {"replicate": "%%(%s)s" % var}
+            comp["command"]["arguments"] += " %(replica)s"
+            replicators.append(name)
+        elif role == "overrider":
+            comp["variables"] = {var: rng.choice([x for x in (1, 2, 3, 4, 5) if x != n])}
+            if rng.random() < 0.3:
+                comp["variables"][flag] = "yes"
+        elif role == "flag-overrider":
+            comp["variables"] = {flag: rng.choice(["yes", "true", True])}
+        comps.append(comp)
+    last = nstages - 1
+    for k, src in enumerate(rng.sample(replicators, min(len(replicators), rng.randint(1, 2)))):
+        # a consumer that stays in the region (the flag says no) and one that aggregates
+        comps.append({"name": "use%d" % k, "stage": last,
+                      "command": {"executable": "cat", "arguments": "stage0.%s:ref" % src},
+                      "references": ["stage0.%s:ref" % src],
+                      "workflowAttributes": {"aggregate": "%%(%s)s" % flag}})
+        comps.append({"name": "collect%d" % k, "stage": last,
+                      "command": {"executable": "cat", "arguments": "stage%d.use%d:ref" % (last, k)},
+                      "references": ["stage%d.use%d:ref" % (last, k)],
+                      "workflowAttributes": {"aggregate": True}})
+    rng.shuffle(comps)
+    doc = {"variables": variables, "platforms": ["default"], "environments": {"default": {}}, "components": comps}
+    return {"id": jid, "kind": "flowir", "doc": doc, "files": {}, "variable_files": [], "variable_order": [],
+            "platform": None, "nstages": nstages}
+
+
+# the sweep/scan components ask for %(N)s replicas (N = 2 globally); their siblings tune/trim set N = 3 for themselves
+MINIMAL_SHADOW = {"id": "minimal-shadow", "kind": "flowir", "files": {}, "variable_files": [], "variable_order": [],
+                  "platform": None, "nstages": 2,
+                  "doc": {"variables": {"default": {"global": {"N": 2}}},
+                          "components": [
+                              {"name": "sweep", "stage": 0, "command": {"executable": "echo", "arguments": "%(replica)s"},
+                               "workflowAttributes": {"replicate": "%(N)s"}},
+                              {"name": "scan", "stage": 0, "command": {"executable": "echo", "arguments": "%(replica)s"},
+                               "workflowAttributes": {"replicate": "%(N)s"}},
+                              {"name": "tune", "stage": 0, "command": {"executable": "echo", "arguments": "%(N)s"},
+                               "variables": {"N": 3}},
+                              {"name": "trim", "stage": 0, "command": {"executable": "echo", "arguments": "%(N)s"},
+                               "variables": {"N": 3}},
+                              {"name": "collect", "stage": 1, "references": ["stage0.sweep:ref"],
+                               "command": {"executable": "echo", "arguments": "stage0.sweep:ref"},
+                               "workflowAttributes": {"aggregate": True}}]}}
+
+
+def unjson_keys(obj):
+    """JSON turns integer keys into strings: the generator marks them as '#<int>' (as harness/c15_child.py)"""
+    if isinstance(obj, dict):
+        out = {}
+        for k, v in obj.items():
+            if isinstance(k, str) and k.startswith("#") and k[1:].lstrip("-").isdigit():
+                k = int(k[1:])
+            out[k] = unjson_keys(v)
+        return out
+    if isinstance(obj, list):
+        return [unjson_keys(x) for x in obj]
+    return obj
+
+
+def check_visit_orders(ctx, jobs, norders, record=True):
+    """Explicit orders where the API allows: FlowIRConcrete.replicate() hands the components of instance() to
+    FlowIR.apply_replicate in the iteration order of a set; here apply_replicate is called with the same components
+    in the sorted order, the reversed one and random ones.  Oracle: the same replicated components (as a set)."""
+    import logging
+    import experiment.model.frontends.flowir as F
+    failures = []
+    prev = logging.root.manager.disable
+    logging.disable(logging.CRITICAL)
+    try:
+        for job in jobs:
+            if job.get("kind", "flowir") != "flowir":
+                continue
+            doc = unjson_keys(copy.deepcopy(job["doc"]))
+            if not any("replicate" in (c.get("workflowAttributes") or {}) for c in doc.get("components", [])):
+                continue
+            platform = job.get("platform") or "default"
+            try:
+                conc = F.FlowIRConcrete(copy.deepcopy(doc), platform, {})
+                inst = conc.instance(platform, ignore_errors=True, fill_in_all=False)
+                comps = sorted(inst["components"], key=lambda c: (c.get("stage", 0), c["name"]))
+                pvars = inst["variables"][platform]
+                deps = conc.get_application_dependencies()
+            except Exception:  # noqa
+                continue
+            orders = [list(range(len(comps))), list(range(len(comps) - 1, -1, -1))]
+            seeds = [ctx.rng.randrange(1 << 30) for _ in range(norders)]
+            for sd in seeds:
+                o = list(range(len(comps)))
+                random.Random(sd).shuffle(o)
+                orders.append(o)
+            outs = []
+            for o in orders:
+                try:
+                    r = F.FlowIR.apply_replicate([copy.deepcopy(comps[i]) for i in o], copy.deepcopy(pvars), False,
+                                                 list(deps), top_level_folders=None)
+                    outs.append(sorted(json.dumps(c, sort_keys=True, default=str) for c in r))
+                except Exception as exc:  # noqa
+                    outs.append(["error:" + type(exc).__name__])
+            case = {k: job[k] for k in ("id", "kind", "doc", "files", "variable_files", "variable_order", "platform",
+                                        "nstages")}
+            case["visit_orders"] = [[comps[i]["name"] for i in o] for o in orders]
+            if record:
+                ctx.tag("explicit-visit-orders")
+            for o, r in zip(orders[1:], outs[1:]):
+                if r != outs[0]:
+                    def names(x):
+                        return sorted("stage%s.%s" % (json.loads(c).get("stage", 0), json.loads(c)["name"])
+                                      for c in x if not c.startswith("error:")) or x
+                    failures.append(("replication-depends-on-component-visiting-order", case,
+                                     {"order_a": [comps[i]["name"] for i in orders[0]], "names_a": names(outs[0]),
+                                      "order_b": [comps[i]["name"] for i in o], "names_b": names(r)}))
+                    break
+    finally:
+        logging.disable(prev)
+    if record:
+        for f in failures:
+            ctx.fail(*f)
+    return failures
 
 
 def refs_have_component(refs):
@@ -576,7 +727,9 @@ def run_children(jobs, hashseeds, rng, scratch, seeds=None):
         jp = os.path.join(scratch, "jobs-%d.json" % idx)
         op = os.path.join(scratch, "out-%d.json" % idx)
         with open(jp, "w") as fh:
-            json.dump({"tag": "h%d" % idx, "scratch": scratch, "jobs": js}, fh)
+            # every other child runs with all loggers enabled at DEBUG level (an ambient setting; see c15_child.py)
+            json.dump({"tag": "h%d" % idx, "scratch": scratch, "jobs": js,
+                       "logging": "debug" if idx % 2 == 1 else None}, fh)
         p = subprocess.Popen(["/venv/bin/python", CHILD, jp, op], env=child_env(hs), stdout=subprocess.PIPE,
                              stderr=subprocess.PIPE, cwd=scratch)
         procs.append((hs, p, op))
@@ -665,6 +818,22 @@ def model_layer_request(job):
     return {"op": "layer", "files": files, "order": order, "queries": queries}
 
 
+def shadowed_by_sibling(job):
+    """some component gives replicate/aggregate as %(v)s without defining v, and a component of its stage defines v"""
+    comps = job["doc"].get("components", []) if isinstance(job.get("doc"), dict) else []
+    for c in comps:
+        for key in ("replicate", "aggregate"):
+            val = (c.get("workflowAttributes") or {}).get(key)
+            if isinstance(val, str) and val.startswith("%(") and val.endswith(")s"):
+                v = val[2:-2]
+                if v in (c.get("variables") or {}):
+                    continue
+                if any(o is not c and o.get("stage", 0) == c.get("stage", 0) and v in (o.get("variables") or {})
+                       for o in comps):
+                    return True
+    return False
+
+
 def component_level_names(job):
     out = {}
     for c in job["doc"].get("components", []):
@@ -699,6 +868,8 @@ def check_jobs(ctx, jobs, hashseeds, scratch, record=True):
         case = {k: job[k] for k in ("id", "kind", "doc", "files", "variable_files", "variable_order", "platform",
                                     "nstages")}
         case["hashseeds"] = list(hashseeds)
+        if job.get("again"):
+            case["again"] = True
         first = dumps[hashseeds[0]]
         loaded = "error" not in first and "child_error" not in first
         nvf = len(set(job["variable_order"]))
@@ -709,6 +880,8 @@ def check_jobs(ctx, jobs, hashseeds, scratch, record=True):
                            "dup-variable-file" if len(job["variable_order"]) != nvf else "no-dup"] +
                           (["replicated"] if any("replicate" in (c.get("workflowAttributes") or {})
                                                   for c in job["doc"]["components"]) else []) +
+                          (["replicate-variable-shadowed-by-sibling"] if shadowed_by_sibling(job) else []) +
+                          (["loaded-twice-in-one-process"] if job.get("again") else []) +
                           ["package:" + job.get("kind", "flowir")])
         for hs in hashseeds:
             if "child_error" in dumps[hs]:
@@ -739,6 +912,19 @@ def check_jobs(ctx, jobs, hashseeds, scratch, record=True):
                 failures.append((slug, case,
                                  {"hashseed_a": hashseeds[0], "hashseed_b": hs, "differences": d}))
                 break
+        # (1b) a package loaded a second time in the same process (after all the other packages) loads the same
+        if job.get("again"):
+            for hs in hashseeds:
+                again = res[hs].get(job["id"] + "@again")
+                if again is None:
+                    continue
+                if "child_error" in again:
+                    from harness.common import InfraError
+                    raise InfraError("C15 child crashed on job %s (second load): %s" % (job["id"], again.get("tb")))
+                if strip_private(again) != dumps[hs]:
+                    failures.append(("result-depends-on-earlier-cases", dict(case, again=True),
+                                     {"hashseed": hs, "differences": diff_paths(dumps[hs], strip_private(again))}))
+                    break
         # (2) user variable files: order given, last wins — at each of the three entry points
         exp = flat_vars(expected_user_variables(job))
         bad = None
@@ -893,8 +1079,16 @@ def make_shrinker(ctx, scratch_root):
                 if hit:
                     return hit[0][1]
             return case
+        if what == "replication-depends-on-component-visiting-order":
+            for t in (copy.deepcopy(MINIMAL_SHADOW), case):
+                hit = [f for f in check_visit_orders(ctx, [t], norders=24, record=False) if f[0] == what]
+                if hit:
+                    return hit[0][1]
+            return case
         if case.get("kind") == "dsl":
             tries.append(copy.deepcopy(MINIMAL_DSL))
+        if shadowed_by_sibling(case):
+            tries.append(copy.deepcopy(MINIMAL_SHADOW))
         if len(set(case.get("variable_order", []))) >= 2:
             tries.append(dict(MINIMAL))
             # the same package with two of its files only
@@ -951,9 +1145,17 @@ def run(ctx):
     hashseeds = [0] + [(ctx.seed * 97 + 1000 * i + i) % 4294967295 for i in range(1, len(hashseeds))]
     njobs = 40 if quick else 160
     ndsl = 20 if quick else 80
+    nshadow = 12 if quick else 48
     jobs = [copy.deepcopy(MINIMAL), copy.deepcopy(MINIMAL_DUP), copy.deepcopy(MINIMAL_ENVCASE),
-            copy.deepcopy(MINIMAL_DSL)] + [gen_package(ctx.rng, "j%d" % i) for i in range(njobs)] + \
+            copy.deepcopy(MINIMAL_DSL), copy.deepcopy(MINIMAL_SHADOW)] + \
+           [gen_package(ctx.rng, "j%d" % i) for i in range(njobs)] + \
+           [gen_shadow_package(ctx.rng, "s%d" % i) for i in range(nshadow)] + \
            [gen_dsl_package(ctx.rng, "d%d" % i) for i in range(ndsl)]
+    ctx.rng.shuffle(jobs)
+    # a sample is loaded a second time at the end of every child process (names collide across the packages:
+    # the generators draw component / variable / environment names from small pools)
+    for j in ctx.rng.sample(jobs, 8 if quick else 24):
+        j["again"] = True
     corpus_dir = os.path.join(os.path.dirname(HERE), "corpus", "C15")
     if os.path.isdir(corpus_dir):
         for fn in sorted(os.listdir(corpus_dir)):
@@ -967,6 +1169,7 @@ def run(ctx):
         ctx.classifiers = CLASSIFIERS
         ctx.shrinker = make_shrinker(ctx, scratch)
         check_jobs(ctx, jobs, hashseeds, scratch)
+        check_visit_orders(ctx, jobs, norders=4 if quick else 10)
         check_dsl_inprocess(ctx, [MINIMAL_DSL["doc"]] + [gen_dsl_doc(ctx.rng) for _ in range(200 if quick else 1500)],
                             nperm=4 if quick else 8)
         check_serialize(ctx, 600 if quick else 6000)
@@ -1012,7 +1215,8 @@ def replay(ctx, doc):
         check_dsl_inprocess(ctx, [case["doc"]], nperm=32, extra_seeds=case.get("perm_seeds", []))
         return
     scratch = tempfile.mkdtemp(prefix="c15-")
-    job = {k: v for k, v in case.items() if k != "hashseeds"}
+    job = {k: v for k, v in case.items() if k not in ("hashseeds", "visit_orders")}
     seeds = list(dict.fromkeys(list(case.get("hashseeds", [])) + list(range(16))))
+    check_visit_orders(ctx, [job], norders=24)
     check_jobs(ctx, [job], seeds, scratch)
     _wrap_finish(ctx, scratch)
